@@ -315,6 +315,8 @@ func (s *Session) Mail(from string, opts *smtp.MailOptions) error {
 	} else {
 		// Keep the MAIL FROM argument for deferred startDelivery.
 		s.mailFrom = from
+		// An error remembered by Rcpt is about the previous MAIL command.
+		s.deliveryErr = nil
 	}
 	s.opts = *opts
 
